@@ -96,6 +96,11 @@ type fwdCache struct {
 	ent      map[string]*Term
 	base     *Term // the array before the cached stores
 	allFresh bool  // every store since base was at a refFresh index
+	// base2/minNum2: the array as it was when this run of stores began, all of which went to objects
+	// (or parts of objects) allocated during the run with allocation number >= minNum2. A reference
+	// known to denote memory that existed before allocation minNum2 reads from base2.
+	base2   *Term
+	minNum2 int
 }
 
 func (x *Exec) heapSelect(st *State, name string, arr, idx *Term) *Term {
@@ -114,6 +119,13 @@ func (x *Exec) heapSelect(st *State, name string, arr, idx *Term) *Term {
 		if c.allFresh && c.base != nil && (st.class(idx) == refOld || st.readsOld && st.class(idx) != refFresh) {
 			return Select(c.base, idx)
 		}
+		// a reference known to denote memory that existed before the n-th allocation cannot be (or
+		// lie inside) an object allocated later
+		if c.base2 != nil && c.minNum2 > 0 {
+			if ub, ok := x.refUB[idx.S]; ok && ub < c.minNum2 {
+				return Select(c.base2, idx)
+			}
+		}
 	}
 	return Select(arr, idx)
 }
@@ -125,6 +137,15 @@ func (x *Exec) heapStoreFwd(st *State, name string, idx, v *Term) {
 	old := st.fwd[name]
 	fresh := st.class(idx) == refFresh
 	c := &fwdCache{arr: na.S, ent: map[string]*Term{}, base: arr, allFresh: fresh}
+	if rn := x.rootNumOf(idx.S); fresh && rn > 0 {
+		c.base2, c.minNum2 = arr, rn
+		if old != nil && old.arr == arr.S && old.base2 != nil {
+			c.base2 = old.base2
+			if old.minNum2 < rn {
+				c.minNum2 = old.minNum2
+			}
+		}
+	}
 	if old != nil && old.arr == arr.S {
 		c.base = old.base
 		c.allFresh = old.allFresh && fresh
@@ -148,6 +169,28 @@ func (x *Exec) heapStoreFwd(st *State, name string, idx, v *Term) {
 	}
 	st.fwd[name] = c
 	st.heap[name] = na
+}
+
+// rootNumOf is the allocation number k of the root (refK*(alloc0+k)) a fresh reference belongs to; 0 if unknown.
+func (x *Exec) rootNumOf(ref string) int {
+	if rt, ok := x.refRoot[ref]; ok {
+		return x.rootNum[rt]
+	}
+	return 0
+}
+
+// noteUB records that a reference term denotes memory that existed before allocation number n+1
+// (it is assumed <= refK*(alloc0+n)).
+func (x *Exec) noteUB(t *Term, n int) {
+	if t == nil || t.IsConst {
+		return
+	}
+	if x.refUB == nil {
+		x.refUB = map[string]int{}
+	}
+	if old, ok := x.refUB[t.S]; !ok || n < old {
+		x.refUB[t.S] = n
+	}
 }
 
 func (x *Exec) distinctRoots(a, b string) bool {
